@@ -182,7 +182,7 @@ def gen_rows(rng, nrows):
         for _ in range(rng.choice([1, 2, 3])):
             kind = rng.choice(["text", "text", "special", "extended", "ital_on", "ital_off", "bs"])
             if kind == "text":
-                segs.append(("text", rng.choice(["AB", "Hi", "ok go", "x", "THE END", "it's", "a.b"])))
+                segs.append(("text", rng.choice(["AB", "Hi", "ok go", "x", "THE END", "it's", "a.b", ".", "!", ", so", "?"])))
             elif kind == "special":
                 segs.append(("special", rng.choice(["♪", "®", "½", "è"])))
             elif kind == "extended":
@@ -324,6 +324,10 @@ def bounded(ctx, b):
     # an italic preamble followed by a tab offset, on the first and on a continuation row
     singles += [[(r1, 0, to1, i1, [("text", "one")]), (r1 + 1, c2, to2, i2, [("text", "two")])]
                 for r1 in (1, 14) for to1 in (0, 2) for i1 in (False, True) for c2 in (0, 4) for to2 in (0, 1, 3) for i2 in (False, True)]
+    # a row whose text up to a mid-row code repeats an earlier row of the caption; a mid-row code before punctuation
+    singles += [[(14, 0, 0, False, [("text", "AB")]), (15, 0, 0, False, [("text", "AB"), (kind, None), ("text", "CD")])] for kind in ("ital_on", "ital_off")]
+    singles += [[(13, 0, 0, False, [("text", "AB")]), (14, 0, 0, False, [("text", "CD")]), (15, 0, 0, False, [("text", "AB"), ("ital_on", None), ("text", "AB")])]]
+    singles += [[(15, 0, 0, False, [("text", "AB"), (kind, None), ("text", p_)])] for kind in ("ital_on", "ital_off") for p_ in (".", "!", "?", ",", ". so", "CD")]
     programs = [(rows, dbl, True) for rows in singles for dbl in (False, True)]
     for _ in range(n):
         # (a quarter of the streams end right after the End Of Caption: the screen is never erased)
@@ -362,6 +366,27 @@ def bounded(ctx, b):
                     return False, dict(detail, what="italic coverage", got_italic=g_["italic"], expected_italic=e["italic"])
             if len({g_["times"] for g_ in got}) > 1:
                 return False, dict(detail, what="parts of one screen have different times")
+            # a doubled code counts once: the same program sent with single and with doubled codes reads character for
+            # character the same (blanks included) - also when a timecode line ends between the two copies of a code
+            texts = [cp.get_text() for cp in caps]
+            single = encode_rows(rows, False)
+            if any(a == b_ and int(a[:2], 16) & 0x7F < 0x20 for a, b_ in zip(single, single[1:])):
+                return True, None        # (the same code twice in a row by authorship: its single-coded form IS a doubled code)
+            ctl2 = lambda w: [w] if dbl else [w, w]
+            ws2 = ctl2(C.ctrl("ENM")) + ctl2(C.ctrl("RCL")) + encode_rows(rows, not dbl) + ctl2(C.ctrl("EDM")) + ctl2(C.ctrl("EOC"))
+            doc2 = C.scc_document([(C.timecode(30), ws2)] + ([(C.timecode(30 + len(ws2) + 60), ctl2(C.ctrl("EDM")))] if erased else []))
+            texts2 = [cp.get_text() for cp in _SHARED_READER.read(doc2).get_captions("en-US")]
+            if texts2 != texts:
+                return False, dict(detail, what="single-coded and doubled-coded forms of one program read differently", this_form=texts, other_form=texts2, other_words=" ".join(ws2))
+            wsd = ws if dbl else ws2
+            for cut in [k for k in range(2, len(wsd) - 1) if wsd[k] == wsd[k - 1] and int(wsd[k][:2], 16) & 0x7F < 0x20][:: max(1, len(wsd) // 12)]:
+                doc3 = C.scc_document([(C.timecode(30), wsd[:cut]), (C.timecode(30 + cut), wsd[cut:])] +
+                                      ([(C.timecode(30 + len(wsd) + 60), [C.ctrl("EDM")] * 2)] if erased else []))
+                # (whether punctuation follows a mid-row code is looked up within the timecode line: the blank before
+                # . ! ? , is not compared here either)
+                texts3 = [cp.get_text() for cp in _SHARED_READER.read(doc3).get_captions("en-US")]
+                if [[words(x) for x in t_.split("\n")] for t_ in texts3] != [[words(x) for x in t_.split("\n")] for t_ in texts]:
+                    return False, dict(detail, what="a timecode line that ends between the two copies of a doubled code changes the text", one_line=texts, two_lines=texts3, split_after_word=cut)
             return True, None
         b.guard(("prog", tuple(map(str, rows)), dbl, erased), one, sample={"rows": [(r, col, to) for r, col, to, _, _ in rows], "doubled": dbl, "erased_at_the_end": erased})
 
